@@ -303,6 +303,48 @@ def handle : List Sx → Sx
       .list [run1 (sqrt fns true) false x,
              if dropped then .atom "no-deriv" else run2 (sqrtDeriv fns) false dx x]
     | _, _ => err "operand"
+  | [.atom "arcsin_d", .list [ac], .list [x, dx]] =>
+    match bool? ac, parseOpd x, parseOpd dx with
+    | some ac, some x, some dx =>
+      .list [run1 (arcsin fns ac true) false x, run2 (arcsinDeriv fns ac) false dx x]
+    | _, _, _ => err "operand"
+  | [.atom "pow_d", .list [e], .list [x, dx]] =>
+    match e.toInt?, parseOpd x, parseOpd dx with
+    | some e, some x, some dx =>
+      let ev : Cell Rat := ⟨q8 e, false⟩
+      let zeroD := x.shape.isEmpty
+      let val := fun (c : Cell Rat) =>
+        if zeroD then pow0D fns 1 c ev (intExp ev.v) else powArr fns c ev (intExp ev.v)
+      .list [run1 val false x,
+             run2 (fun d c => powDeriv fns zeroD 1 d c ev (intExp (ev.v - 1))) false dx x]
+    | _, _, _ => err "operand"
+  | [.atom "norm_d", .list [], .list [x, dx]] =>
+    match parseOpd x, parseOpd dx with
+    | some x, some dx =>
+      let v := x.vcells.map (norm fns)
+      let d := match Arr.map2 (normDeriv fns) dx.vcells x.vcells with
+        | some arr => outT arr.shape (cellSx false) (collect arr.toList)
+        | none => .atom "ValueError"
+      .list [outT v.shape (cellSx false) (collect v.toList), d]
+    | _, _ => err "operand"
+  | [.atom "unit_d", .list [], .list [x, dx]] =>
+    match parseOpd x, parseOpd dx with
+    | some x, some dx =>
+      let v := x.vcells.map (unit fns)
+      let d := match Arr.map2 (unitDeriv fns) dx.vcells x.vcells with
+        | some arr => outT arr.shape (vcellSx false) (collect arr.toList)
+        | none => .atom "ValueError"
+      .list [outT v.shape (vcellSx false) (collect v.toList), d]
+    | _, _ => err "operand"
+  | [.atom "qrecip_d", .list [], .list [x, dx]] =>
+    match parseOpd x, parseOpd dx with
+    | some x, some dx =>
+      let v := x.vcells.map quatReciprocal
+      let d := match Arr.map2 quatReciprocalDeriv dx.vcells x.vcells with
+        | some arr => outT arr.shape (vcellSx false) (collect arr.toList)
+        | none => .atom "ValueError"
+      .list [outT v.shape (vcellSx true) (collect v.toList), d]
+    | _, _ => err "operand"
   | _ => err "c02-op"
 
 end Drv.C02
